@@ -5,6 +5,7 @@ the codecs' recovered bytes, and the byte-preservation kernel of normalization.
 import ArvVerif.Props.C10
 import ArvVerif.Proofs.C10_Normalize
 import ArvVerif.Proofs.C10_Termination
+import ArvVerif.Proofs.C10_SizedDigests
 namespace ArvVerif.C10
 
 /-- **C10_resolve_bytes.** `resolve` is the document's semantics: for block contents `blk` of the
@@ -66,5 +67,14 @@ blocks; their models are structurally recursive.) -/
 theorem C10_firstBlock_terminates (g : Nat → Nat → Nat → Bool) (offs : List Nat) (rs : List PyRange) (start : Nat) :
     firstBlockWith g offs start ≠ .outOfFuel ∧ pyFirstBlockWith g rs start ≠ .outOfFuel :=
   ⟨firstBlockWith_terminates g offs start, pyFirstBlockWith_terminates g rs start⟩
+
+/-- **C10_sized_digests.** For every text inside the grammar `Collection.SizedDigests` returns no
+error and, in manifest order, the hash+size part of every block locator (all hints dropped). -/
+theorem C10_sized_digests (txt : Bytes) (M : Manifest) (hvalid : parseSpec txt = some M) :
+    sizedDigests txt = some (M.flatMap fun s => s.blocks.map fun b => stripLoc b.text) :=
+  sizedDigests_valid txt M hvalid
+
+example : sizedDigests wF3 = some (wF3M.flatMap fun s => s.blocks.map fun b => stripLoc b.text) :=
+  C10_sized_digests wF3 wF3M wF3_valid
 
 end ArvVerif.C10
